@@ -194,7 +194,9 @@ claim("C20",
       "name/number, append-monotonicity, 1% scaling across sizes 4..48, mono = count x advance and rejections are checked "
       "on random strings.",
       "C20_partial: scaling with the font size (FreeType hinting) is a sampled relation, not a theorem; Pillow/FreeType are "
-      "the oracle for the dumped metrics; U+00AD (zero-advance format character) is outside the domain.",
+      "the oracle for the dumped metrics; U+00AD (zero-advance format character) is outside the domain; the exact model comparison is "
+      "made on single-script strings (HarfBuzz shapes common-script characters next to Greek letters differently), mixed strings are "
+      "covered by the sampled relations only.",
       "Rocq proof (fold invariants + finite reflection on dumped font metrics) + exact differential check at the reference size",
       "DESIGN.md section 6 C20")
 claim("C14",
